@@ -1,6 +1,8 @@
 import Exetera.Model.IndexedWriter
 import Exetera.Model.Storage
 import Exetera.Spec.Storage
+import Exetera.Model.Reader
+import Exetera.Spec.PySlice
 /-!
   Counterexamples for the `asFound` variants of the C01 model: the four defects that the fix: patches in /verif/fixes
   repair (D1, D2, D32, NC01a). They stay in the tree so that a regression has its witness at hand
@@ -8,7 +10,7 @@ import Exetera.Spec.Storage
 -/
 namespace Exetera.Witness.C01
 
-open Exetera Exetera.Storage Exetera.IndexedWriter Exetera.Spec
+open Exetera Exetera.Storage Exetera.IndexedWriter Exetera.Spec Exetera.Reader
 
 /-- D1: `MemoryFieldArray.write_part(empty)` after data: `new[-0:] = part` addresses the whole array → ValueError. -/
 theorem d1_empty_part_raises :
@@ -34,5 +36,75 @@ theorem d32_repaired : storeKeyValues .repaired "int32" [1000] = .ok [1000] := b
 
 /-- NC01a: a memory field nothing was written to reads back as uint8, not as its declared dtype. -/
 theorem nc01a_empty_read_dtype : readDtype .asFound false "int32" false = "uint8" := rfl
+
+/-! ### NC01b — the indexed readers as found on items other than non-negative, ordered, unit-step ones.
+    The field holds `['a', '', 'bc', 'def', 'g']`. -/
+
+def rowsW : List Bytes := [[97], [], [98, 99], [100, 101, 102], [103]]
+def ixW : List Nat := offsets rowsW          -- [0, 1, 1, 3, 6, 7]
+def valsW : Bytes := rowsW.flatten
+
+/-- `data[-1]` raises "not enough values to unpack" (`indices[-1:1]` is empty) instead of returning `'g'` -/
+theorem nc01b_negative_index_raises :
+    getIndexed .asFound true ixW valsW (.int (-1)) = .error (.valueError "not enough values to unpack") ∧
+    pyIndex rowsW (-1) = .ok [103] := ⟨rfl, rfl⟩
+
+/-- `data[-5]` silently returns row 1 (`''`) where Python names row 0 (`'a'`): the offsets array is one longer than the
+    rows; and `data[-6]`, out of range, returns row 0 -/
+theorem nc01b_negative_index_wrong_row :
+    getIndexed .asFound false ixW valsW (.int (-5)) = .ok (.entry []) ∧ pyIndex rowsW (-5) = .ok [97] ∧
+    getIndexed .asFound false ixW valsW (.int (-6)) = .ok (.entry [97]) ∧
+    pyIndex rowsW (-6) = .error (.oob "list index out of range") := ⟨rfl, rfl, rfl, rfl⟩
+
+/-- `data[-2:]` returns the last row only -/
+theorem nc01b_negative_start_drops_row :
+    getIndexed .asFound true ixW valsW (.slice (some (-2)) none none) = .ok (.rows [some [103]]) ∧
+    pySliceG rowsW (some (-2)) none none = .ok [[100, 101, 102], [103]] := ⟨rfl, rfl⟩
+
+/-- `data[:-1]` is empty through the writeable reader and an IndexError through the read-only one -/
+theorem nc01b_negative_stop :
+    getIndexed .asFound true ixW valsW (.slice none (some (-1)) none) = .ok (.rows []) ∧
+    getIndexed .asFound false ixW valsW (.slice none (some (-1)) none) = .error (.oob "index[0]") ∧
+    pySliceG rowsW none (some (-1)) none = .ok [[97], [], [98, 99], [100, 101, 102]] := ⟨rfl, rfl, rfl⟩
+
+/-- every step is ignored: `data[::2]`, `data[::-1]` and even `data[::0]` return all rows in ascending order -/
+theorem nc01b_step_ignored :
+    getIndexed .asFound false ixW valsW (.slice none none (some 2)) = .ok (.rows (rowsW.map some)) ∧
+    pySliceG rowsW none none (some 2) = .ok [[97], [98, 99], [103]] ∧
+    getIndexed .asFound false ixW valsW (.slice none none (some (-1))) = .ok (.rows (rowsW.map some)) ∧
+    pySliceG rowsW none none (some (-1)) = .ok rowsW.reverse ∧
+    getIndexed .asFound true ixW valsW (.slice none none (some 0)) = .ok (.rows (rowsW.map some)) ∧
+    pySliceG rowsW none none (some 0) = .error (.valueError "slice step cannot be zero") := ⟨rfl, rfl, rfl, rfl, rfl, rfl⟩
+
+/-- `data[:-5]` through the writeable reader returns `[None]`: a place of the result list is never filled -/
+theorem nc01b_unfilled_place :
+    getIndexed .asFound true ixW valsW (.slice none (some (-5)) none) = .ok (.rows [none]) ∧
+    pySliceG rowsW none (some (-5)) none = .ok [] := ⟨rfl, rfl⟩
+
+/-- the read-only reader raises IndexError for the empty slices `data[3:1]`, `data[7:9]` -/
+theorem nc01b_readonly_empty_slice_raises :
+    getIndexed .asFound false ixW valsW (.slice (some 3) (some 1) none) = .error (.oob "index[0]") ∧
+    getIndexed .asFound false ixW valsW (.slice (some 7) (some 9) none) = .error (.oob "index[0]") ∧
+    pySliceG rowsW (some 3) (some 1) none = .ok [] ∧ pySliceG rowsW (some 7) (some 9) none = .ok [] := ⟨rfl, rfl, rfl, rfl⟩
+
+/-- …all of which the repaired readers answer as Python does -/
+theorem nc01b_repaired :
+    getIndexed .repaired true ixW valsW (.int (-1)) = .ok (.entry [103]) ∧
+    getIndexed .repaired false ixW valsW (.int (-5)) = .ok (.entry [97]) ∧
+    getIndexed .repaired true ixW valsW (.slice (some (-2)) none none) = .ok (.rows [some [100, 101, 102], some [103]]) ∧
+    getIndexed .repaired false ixW valsW (.slice none none (some 2)) = .ok (.rows [some [97], some [98, 99], some [103]]) ∧
+    getIndexed .repaired false ixW valsW (.slice none none (some (-1))) = .ok (.rows (rowsW.reverse.map some)) ∧
+    getIndexed .repaired false ixW valsW (.slice (some 3) (some 1) none) = .ok (.rows []) ∧
+    getIndexed .repaired true ixW valsW (.slice none (some (-5)) none) = .ok (.rows []) := ⟨rfl, rfl, rfl, rfl, rfl, rfl, rfl⟩
+
+/-! ### NC01c — an HDF5-backed plain array refuses a negative step -/
+
+theorem nc01c_negative_step_refused :
+    plainGet .asFound (.h5 [10, 20, 30]) (.slice none none (some (-1))) = .error (.valueError "Step must be >= 1") ∧
+    plainGet .asFound (.mem (some [10, 20, 30])) (.slice none none (some (-1))) = .ok (.array [30, 20, 10]) ∧
+    pySliceG [10, 20, 30] none none (some (-1)) = .ok [30, 20, 10] := ⟨rfl, rfl, rfl⟩
+
+theorem nc01c_repaired :
+    plainGet .repaired (.h5 [10, 20, 30, 40, 50]) (.slice (some (-1)) (some 0) (some (-2))) = .ok (.array [50, 30]) := rfl
 
 end Exetera.Witness.C01
